@@ -135,6 +135,10 @@ def t_evict(ctx):
 
     async def hP(h, ev):
         n = 0
+        for i in range(ctx.cfg.get('awaited', 0)):
+            c = h.dispatch(bus, ctx.ev(C, f'W{i}'))
+            ctx.obs('after_dispatch', bus=bus)
+            await h.wait(c)
         for i in range(b):
             h.dispatch(bus, ctx.ev(C, f'C{i}'))
             ctx.obs('after_dispatch', bus=bus)
@@ -166,8 +170,8 @@ def t_evict(ctx):
             # an in-flight event is never evicted while a completed one remains
             kept = dict(o.hist)
             if any(s == 'completed' for s in kept.values()):
-                inflight_missing = [l for (bn, l) in tr.accepted('A') if l not in kept and ctx.expected('A', l)
-                                    and not tr.handlers_done(l, o.seq, [('A', n) for n in ctx.expected('A', l)])]
+                inflight_missing = [r.ev for r in tr.DR if r.bus == 'A' and r.seq < o.seq and r.ev not in kept and ctx.expected('A', r.ev)
+                                    and not tr.handlers_done(r.ev, o.seq, [('A', n) for n in ctx.expected('A', r.ev)])]
                 ctx.check('C13.order_live', not inflight_missing, missing=inflight_missing)
     nbv = nb[0] if nb else 0
     if nbv + 1 > N:
@@ -194,4 +198,6 @@ def jobs(tier):
         for ch in (True, False):
             out.append(Job('C13', 's1.evict', t_evict, dict(N=N, child_handler=ch, bmax=5 if tier == 'quick' else 8),
                            witnesses=('burst larger than N',)))
+    for N in (3, 4):
+        out.append(Job('C13', 's1.evict', t_evict, dict(N=N, child_handler=True, awaited=N - 1, bmax=3 if tier == 'quick' else 6)))
     return out
